@@ -220,6 +220,8 @@ pub struct Built<C: Fc> {
     /// statements skipped because they fall into a listed known-finding class
     pub excluded: Vec<&'static str>,
     has_ext_decomp: bool,
+    /// expressions already decomposed into coefficients (a repeated decomposition is served from the builder's cache)
+    decomposed: Vec<u32>,
 }
 
 impl<C: Fc> Built<C> {
@@ -238,6 +240,7 @@ impl<C: Fc> Built<C> {
             recs: vec![],
             excluded: vec![],
             has_ext_decomp: false,
+            decomposed: vec![],
         }
     }
 
@@ -422,6 +425,7 @@ pub fn interpret<C: Fc>(prog: &Prog, excl: Excl) -> Built<C> {
         recs: vec![],
         excluded: vec![],
         has_ext_decomp: prog.stmts.iter().any(|s| matches!(s, Stmt::ExtDecomp(_))),
+        decomposed: vec![],
     };
     // node 0: the shared zero constant, node 1: one
     let z = out.builder.define_const(C::EF::ZERO);
@@ -710,10 +714,26 @@ fn step<C: Fc>(o: &mut Built<C>, si: usize, st: &Stmt, excl: Excl) {
         }
         Stmt::ExtDecomp(i) => {
             let a = o.nodes[ix(i)].clone();
+            // The decomposition ties a new recompose row's output to `a`.  If `a`'s connect class
+            // already holds a table-backed non-primitive output (an earlier decomposition of an
+            // expression of the same class), two rows of one table write one slot: the listed
+            // duplicate-output finding, reached without an explicit connect statement.
+            let (_, pre) = class_profile_if_connected::<C>(&o.builder, a.expr, a.expr);
+            let a_is_npo_out = matches!(o.builder.verif_graph().get_expr(a.expr), p3_circuit::Expr::NonPrimitiveOutput { .. });
+            let again = o.decomposed.contains(&a.expr.0);
+            o.decomposed.push(a.expr.0);
+            if pre >= 1 && !a_is_npo_out && !again && excl.two_creators {
+                o.excluded.push("npo-duplicate-output");
+                return;
+            }
             let coeffs = o
                 .builder
                 .decompose_ext_to_base_coeffs::<C::BF>(a.expr)
                 .expect("decompose_ext_to_base_coeffs");
+            let (_, post) = class_profile_if_connected::<C>(&o.builder, a.expr, a.expr);
+            if post >= 2 && post > pre {
+                o.features.insert("npo-duplicate-output".into());
+            }
             let cs = C::coeffs(&a.val);
             for (e, c) in coeffs.into_iter().zip(cs) {
                 push(o, e, C::base(c), NK::Coeff, si, a.undefined);
